@@ -1,6 +1,6 @@
 """C20 — fallback DNS resolver: generators, implementation-side monitor, check definition.
 
-Events (see harness/drv/c20.c): RESOLVE : name | CONNCB | DISCCB | RECONCB err | RECV : reply | SENTRES r | ADV us | DUMP.
+Events (see harness/drv/c20.c): RESOLVE : name | CONNCB | DISCCB | RECONCB err | RECV : reply | SENTRES r | CONNRES r | ADV us | DUMP.
 The generator puts a DUMP in front of every RESOLVE and at the end of a case, so that the STATE lines cut the
 implementation trace into one segment per resolve request (the monitor needs to attribute callbacks to requests)."""
 import os, struct, sys
@@ -83,7 +83,7 @@ QUIET_US = 21_000_000     # > 4 timeouts + 4 retry delays: a request left alone 
 
 class C20(F.PropCheck):
     pid = 'C20'; gen_groups = ['DnsConsts']; prop_file = 'Properties_C20'
-    IN = {'RESOLVE': 0, 'CONNCB': 1, 'DISCCB': 2, 'RECONCB': 3, 'RECV': 4, 'SENTRES': 5, 'ADV': 6, 'DUMP': 7}
+    IN = {'RESOLVE': 0, 'CONNCB': 1, 'DISCCB': 2, 'RECONCB': 3, 'RECV': 4, 'SENTRES': 5, 'ADV': 6, 'DUMP': 7, 'CONNRES': 8}
     OUT = {0: 'CB', 1: 'CONNECT', 2: 'DISCONNECT', 3: 'SENT', 4: 'SENTNULL', 5: 'STATE', 6: 'FAULT', 7: 'FUEL'}
     quick_cases = 5000; thorough_cases = 200000
     trusted_extra = ['C20 driver harness/drv/c20.c + wrapper harness/wrap/c20_dns_wrap.c (real supla_esp_dns_client.c, accessors only); '
@@ -94,7 +94,7 @@ class C20(F.PropCheck):
                    'the result callback does not re-enter supla_esp_dns_resolve; domain != NULL; malloc does not fail',
                    'the reply is handed to the receive callback in one piece (as the code assumes); len < 65536']
     rule = ('1-3 resolve requests per case (names 0..100 chars: regular host names, boundary lengths 3/4/62/63/64/65/100, dots anywhere, '
-            'random bytes) x per-server outcome scripts {no connect, sent fails, disconnect, timeout, bad reply, CNAME-first, good reply '
+            'random bytes) x per-server outcome scripts {espconn_connect returns an error (-4/-1/-15/...), no connect, sent fails, disconnect, timeout, bad reply, CNAME-first, good reply '
             'with/without disconnect} x replies {valid A compressed/uncompressed, every single-field corruption, truncation at every '
             'offset, random bytes 0..1500, 65535 bytes} x random timer advances, plus unstructured event soups; '
             'non-trivial = at least one result callback observed; distinct by sha256 of the event text')
@@ -104,7 +104,8 @@ class C20(F.PropCheck):
         return F.build_c('c20', os.path.join(V, 'harness', 'drv', 'c20.c'),
                          sources=[os.path.join(V, 'harness', 'wrap', 'c20_dns_wrap.c'),
                                   os.path.join(V, 'harness', 'doubles', 'doubles.c'),
-                                  os.path.join(V, 'harness', 'doubles', 'libc_doubles.c')])
+                                  os.path.join(V, 'harness', 'doubles', 'libc_doubles.c')],
+                         libs=['-Wl,--wrap=espconn_connect'])    # the driver scripts the return value of espconn_connect
 
     # ---------------- generators
     def gen_name(self, rng):
@@ -184,10 +185,16 @@ class C20(F.PropCheck):
     def adv(self, rng, base):
         return ('ADV', [max(0, base + rng.choice([0, 0, 0, -1, 1, -1000, 1000, 100000]))], b'')
 
-    def gen_try(self, rng, name, tags):
-        """events of one connection attempt, ending with enough time for the next attempt to start"""
+    CONN_ERRS = [-4, -1, -15, -12, -7, 1]      # ESPCONN_RTE, _MEM, _ISCONN, _ARG, _INPROGRESS, any non-zero
+
+    def gen_try(self, rng, name, tags, connfailed=False):
+        """events of one connection attempt, ending with enough time for the next attempt to start.
+        connfailed: espconn_connect returned an error for this attempt -> (mostly) no callback ever comes for it"""
         o = rng.choice(['noconn', 'sentfail', 'disc', 'timeout', 'bad', 'bad', 'random', 'cname', 'good', 'good', 'good-nodisc'])
+        if connfailed and rng.random() < 0.8: o = 'connfail'
         tags.append('try:' + o); evs = []
+        if o == 'connfail':
+            return [self.adv(rng, 5000000), self.adv(rng, 200000)]
         if o == 'noconn':
             if rng.random() < 0.5: evs.append(('RECONCB', [rng.choice([-11, -8, -4])], b''))
             evs += [self.adv(rng, 5000000), self.adv(rng, 200000)]
@@ -211,9 +218,16 @@ class C20(F.PropCheck):
 
     def gen_request(self, rng, tags, complete):
         name, t = self.gen_name(rng); tags.append(t)
-        evs = [('DUMP', [], b''), ('RESOLVE', [], name)]
+        evs = [('DUMP', [], b'')]
+        def connres():
+            """result of the next espconn_connect call (the call for attempt k is made by RESOLVE or by the retry timer)"""
+            r = rng.choice(self.CONN_ERRS) if rng.random() < 0.25 else 0
+            return r, [('CONNRES', [r], b'')]
+        r, ce = connres(); evs += ce + [('RESOLVE', [], name)]
         for _ in range(rng.choice([1, 2, 4, 4, 5])):
-            evs += self.gen_try(rng, name, tags)
+            t = self.gen_try(rng, name, tags, connfailed=(r != 0))
+            r, ce = connres()
+            evs += t[:-1] + ce + t[-1:]          # set before the advance that lets the retry timer start the next attempt
         if complete: evs.append(('ADV', [QUIET_US], b''))
         else: tags.append('superseded')
         return evs
@@ -228,7 +242,8 @@ class C20(F.PropCheck):
             elif k < 0.42: evs.append(('DISCCB', [], b''))
             elif k < 0.45: evs.append(('RECONCB', [-11], b''))
             elif k < 0.7: evs.append(('RECV', [], self.gen_reply(rng, name, rng.choice(['good', 'bad', 'random', 'cname']))[0]))
-            elif k < 0.75: evs.append(('SENTRES', [rng.choice([0, 0, -1, -12])], b''))
+            elif k < 0.72: evs.append(('SENTRES', [rng.choice([0, 0, -1, -12])], b''))
+            elif k < 0.75: evs.append(('CONNRES', [rng.choice([0, 0, -4, -1, -15])], b''))
             elif k < 0.95: evs.append(('ADV', [rng.choice([0, 1, 100000, 199999, 200000, 200001, 1000000, 4800000, 5000000, 5200000, 30000000, rng.randrange(0, 6000000)])], b''))
             else: evs.append(('DUMP', [], b''))
         return evs
@@ -297,7 +312,7 @@ class C20(F.PropCheck):
                 quiet = 0
                 for e in reversed(after):
                     if e[0] == 'ADV': quiet += e[1][0] if e[1] else 0
-                    elif e[0] in ('SENTRES', 'RECONCB'): continue
+                    elif e[0] in ('SENTRES', 'CONNRES', 'RECONCB'): continue
                     else: break
                 if quiet >= QUIET_US and len(cbs) == 0:
                     v.append('resolve request for a %d-character name never completed: no callback after %d us without network events' % (len(c_name(name)), quiet))
